@@ -694,3 +694,51 @@ func ruleStartupSweep(p *Prog, r *Report, rule string) {
 	})
 	r.Check(okv, fnName(fn), "table-keep-is-membership", "a table file is kept iff it is in the recovered version", "no comma-ok map lookup for table files", p.Pos(fn.Pos()))
 }
+
+// ruleDeltaRecordIsPure: session.setVersion tells the reference loop which tables an edit added and
+// deleted by reading the edit record. newManifest COMPLETES the record it is given into a snapshot
+// of the whole version (version.fillRecord appends every live table). A record must therefore not
+// be both: passing the edit itself to newManifest and then to setVersion references every live
+// table once more, and tables that were already live are then never removed (until a reopen).
+func ruleDeltaRecordIsPure(p *Prog, r *Report, rule string) {
+	r.Begin(rule, "E-FLOW", "the delta given to the reference loop is the edit alone: in session.commit the record passed to setVersion is never passed to newManifest (which appends all tables of the version to its record); newManifest completes only records of its own or fresh records; version.fillRecord is called from newManifest only", 3)
+	defer r.End()
+	fn := resolveFn(p, r, "leveldb", "(*session).commit")
+	if fn == nil {
+		return
+	}
+	var deltaRecs []ssa.Value
+	for _, c := range findCalls(fn, fSetVer) {
+		deltaRecs = append(deltaRecs, stripConv(callCommon(c).Args[1]))
+	}
+	r.Site(1)
+	r.Check(len(deltaRecs) >= 1, fnName(fn), "installs", "commit installs the version with setVersion(r, nv)", "no setVersion call", p.Pos(fn.Pos()))
+	for _, c := range findCalls(fn, fNewMan) {
+		r.Site(1)
+		a := stripConv(callCommon(c).Args[1])
+		bad := false
+		for _, d := range deltaRecs {
+			if a == d {
+				bad = true
+			}
+		}
+		r.Check(!bad, fnName(fn), "snapshot-record-is-not-the-delta@"+branchLabel(c), "the record completed into a manifest snapshot is not the edit whose delta is handed to the reference loop", "newManifest at "+p.Pos(c.Pos())+" receives the very record that setVersion later reads: every live table is referenced once more and never released", p.Pos(c.Pos()))
+	}
+	// who completes records with all tables
+	if fr := resolveFn(p, r, "leveldb", "(*version).fillRecord"); fr != nil {
+		r.Site(1)
+		var callers []string
+		if n := p.CG().Nodes[fr]; n != nil {
+			for _, e := range n.In {
+				callers = append(callers, fnName(e.Caller.Func))
+			}
+		}
+		ok := len(callers) >= 1
+		for _, c := range callers {
+			if c != "(*leveldb.session).newManifest" {
+				ok = false
+			}
+		}
+		r.Check(ok, fnName(fr), "only-newManifest-snapshots", "version.fillRecord (all tables into a record) is used by newManifest only", fmt.Sprint(callers), p.Pos(fr.Pos()))
+	}
+}
